@@ -6,14 +6,23 @@ Every case builds a protocol-form input (`kind` + data), runs the real code on i
 implementation's canonical output to the Lean driver (Driver/TextOps.lean), which runs the model, compares (K) and
 evaluates the Bool specs of Spec/Text.lean on the implementation's output (O).
 
+K is exact on everything the properties pin down. Two deliberate freedoms: the dict returned by load_isa is compared
+as a set of items, and a table with both a mnemonic collision and an unsupported capability may be rejected with either
+error as long as it names a real culprit (order of independent checks). hash() is only required to agree on equal strings.
+
+Restrictions (stated in the models): ASCII text only; unit names in records / diagrams need no repr- or csv-escaping
+for the textual comparisons (names needing csv quoting are still compared cell-wise through csv.reader).
+
 Families (case id = "<family>:<number>")
   C18x  exhaustive pairs over strings <= 3 from {a,A,b,B,1,' '}: one case = one left string x all 259 right strings
   C18t  exhaustive triples over strings <= 2: one case = one (a, b) x all 43 c
   C18r  random longer ASCII strings, pairs and triples (re-casings, prefixes, neighbours of the case boundary)
   C17x  exhaustive pairs of records over <= 2 units x <= 2 entries, 3-value domain: one case = one left record x all 196
         (left built in insertion order a,b; right in order b,a; absent / explicitly empty both enumerated)
-  C17y  (thorough) the same over <= 3 units x <= 2 entries (2 744 x 2 744 pairs)
-  C17n  (thorough, and a few in quick) records over <= 3 units x <= 3 entries against all their re-orderings and single edits
+  C17y  (thorough) the same over <= 3 units x <= 2 entries (2 744 x 2 744 = 7.5 M pairs, exhaustive)
+  C17n  records over <= 3 units x <= 3 entries against all their re-orderings and single edits. (All pairs over
+        <= 3 x <= 3 would be 68 921^2 = 4.7e9 comparisons of the real code: not run exhaustively; C17y + C17n is what
+        stands in for it, and the theorem covers the rest for the model.)
   C17r  random larger records (ints or InstrState values), re-orderings, edits
   C14g  instruction lists x whitespace renderings (+ single-fault corruptions); the text is produced by the Lean
         `renderProgram` the round-trip theorem is stated with
